@@ -77,8 +77,9 @@ pub fn check_scalars<V: JsonValueTrait>(v: &V, m: &J, what: &str) -> Result<(), 
     }
     let want_str = if let J::Str(s) = m { Some(s.as_str()) } else { None };
     let got_str = v.as_str();
-    if got_str != want_str {
-        return Err(mismatch(what, "as_str", format!("{:?}", got_str), format!("{:?}", want_str)));
+    if got_str.map(|s| s.as_bytes()) != want_str.map(|s| s.as_bytes()) {
+        // (lossy rendering: a dangling string need not be UTF-8)
+        return Err(mismatch(what, "as_str", format!("{:?}", got_str.map(|s| String::from_utf8_lossy(s.as_bytes()).into_owned())), format!("{:?}", want_str)));
     }
     let (wu, wi, wf) = if let J::Num(n) = m { (expected_u64(n), expected_i64(n), expected_f64(n)) } else { (None, None, None) };
     let gu = v.as_u64();
@@ -178,6 +179,9 @@ pub fn check_serialized(text: &str, m: &J, what: &str) -> Result<(), Violation> 
 }
 
 pub fn truncate(s: &str) -> String {
+    // text handed out by the library may come from freed memory: never assume it is UTF-8
+    let lossy = String::from_utf8_lossy(s.as_bytes());
+    let s: &str = &lossy;
     if s.len() <= 300 {
         s.to_string()
     } else {
